@@ -177,8 +177,23 @@ func runHammer(c HammerCase, st kvs.Storage) *vstat.Violation {
 	return nil
 }
 
+// hammerBudget bounds the wall time of a hammer unit: on an overloaded machine the spinning rounds take many times longer,
+// and the cases drawn after the budget is used up are not run (they are counted as skipped, never as a verdict).
+type hammerBudget struct{ start time.Time }
+
+func newBudget() *hammerBudget { return &hammerBudget{start: time.Now()} }
+
+func (b *hammerBudget) spent(prop string) bool {
+	if time.Since(b.start) < vstat.Pick(25*time.Second, 5*time.Minute) {
+		return false
+	}
+	vstat.For(prop).AddExtra("hammer_cases_skipped_after_time_budget", 1)
+	return true
+}
+
 func TestC02Hammer(t *testing.T) {
 	st := vstat.For("C02")
+	budget := newBudget()
 	rapid.Check(t, func(rt *rapid.T) {
 		c := HammerCase{
 			Backend: rapid.SampledFrom([]string{"inmem", "inmem", "inmem", "redis"}).Draw(rt, "backend"),
@@ -189,6 +204,9 @@ func TestC02Hammer(t *testing.T) {
 		c.Rounds = rapid.IntRange(200, vstat.Pick(1500, 4000)).Draw(rt, "rounds")
 		if c.Backend == "redis" {
 			c.Rounds = rapid.IntRange(20, vstat.Pick(150, 500)).Draw(rt, "redisRounds")
+		}
+		if budget.spent("C02") {
+			return
 		}
 		v := runHammer(c, storageFor(rt, c.Backend))
 		st.Report(rt, "TestC02Hammer", c, v)
@@ -263,9 +281,13 @@ func runWaitHammer(c WaitHammerCase, st kvs.Storage) *vstat.Violation {
 
 func TestC07Hammer(t *testing.T) {
 	st := vstat.For("C07")
+	budget := newBudget()
 	rapid.Check(t, func(rt *rapid.T) {
 		c := WaitHammerCase{Pairs: rapid.IntRange(1, 6).Draw(rt, "pairs"), Rounds: rapid.IntRange(300, vstat.Pick(2000, 6000)).Draw(rt, "rounds"),
 			Yields: rapid.IntRange(0, 3).Draw(rt, "yields"), Cas: rapid.Bool().Draw(rt, "cas")}
+		if budget.spent("C07") {
+			return
+		}
 		s := InmemDriver().St
 		v := runWaitHammer(c, s)
 		if v == nil {
@@ -634,9 +656,13 @@ func trunc(b []byte) string {
 
 func TestC02Private(t *testing.T) {
 	st := vstat.For("C02")
+	budget := newBudget()
 	rapid.Check(t, func(rt *rapid.T) {
 		c := PrivateCase{Backend: rapid.SampledFrom([]string{"redis", "redis", "inmem"}).Draw(rt, "backend"), Threads: rapid.IntRange(2, vstat.Pick(48, 64)).Draw(rt, "threads"),
 			Rounds: rapid.IntRange(20, vstat.Pick(300, 600)).Draw(rt, "rounds"), ValLen: rapid.SampledFrom([]int{0, 8, 100, 2000}).Draw(rt, "valLen")}
+		if budget.spent("C02") {
+			return
+		}
 		v := runPrivate(c, storageFor(rt, c.Backend))
 		st.Report(rt, "TestC02Private", c, v)
 		st.Case(c.Threads >= 4, vstat.Hash(c), func() any { return c }, "private_keys:"+c.Backend)
